@@ -58,17 +58,37 @@ WcnfText(n, m, withTop, ts) ==
   "p wcnf " \o ToString(n) \o " " \o ToString(m) \o (IF withTop THEN " " \o ToString(TopWeight) ELSE "") \o "\n" \o Body(ts, "wcnf")
 OpbText(n, m, ts) == "* #variable= " \o ToString(n) \o " #constraint= " \o ToString(m) \o "\n" \o Body(ts, "opb")
 
+(* ---- lexed tokens ----------------------------------------------------------- *)
+(* The readers work on LEXED tokens, records [k, v, s]:                                            *)
+(*   k = "num"  an integer, v its value          k = "var"  xK / ~xK, v = K / -K                   *)
+(*   k = "nl"   end of line                      k = "com"  a whole comment line                   *)
+(*   k = "sym"  anything else, s its text (">=", "=", ";", "min:", or a token no format knows)     *)
+(* FormatsGen's string tokens are lexed by Lex below (tables NumTok, VarTok).  Texts PRINTED by the *)
+(* project (C18) are lexed by the harness (whitespace splitting and the shape of single tokens     *)
+(* only) and read by the same readers: a printed text is well formed iff the reference reads it.   *)
+Tk(k, v, s) == [k |-> k, v |-> v, s |-> s]
+Lex(t) == CASE t = "NL" -> Tk("nl", 0, "")
+            [] t = "C"  -> Tk("com", 0, "")
+            [] t = "T"  -> Tk("num", TopWeight, "")
+            [] IsNum(t) -> Tk("num", NumTok[t], "")
+            [] IsVar(t) -> Tk("var", VarTok[t], "")
+            [] OTHER    -> Tk("sym", 0, t)
+LexSeq(ts) == [i \in 1..Len(ts) |-> Lex(ts[i])]
+NumL(x) == x.k = "num"
+VarL(x) == x.k = "var"
+SymL(x, str) == x.k = "sym" /\ x.s = str
+
 (* ---- lines ---------------------------------------------------------------- *)
-(* the lines of a text: maximal runs of tokens other than "NL" (a final "NL" does not open a line) *)
+(* the lines of a text: maximal runs of tokens other than line ends (a final line end does not open a line) *)
 RECURSIVE LinesFrom(_, _, _, _)
-LinesFrom(ts, i, cur, acc) ==
-  IF i > Len(ts) THEN (IF cur = <<>> THEN acc ELSE Append(acc, cur))
-  ELSE IF ts[i] = "NL" THEN LinesFrom(ts, i + 1, <<>>, Append(acc, cur))
-  ELSE LinesFrom(ts, i + 1, Append(cur, ts[i]), acc)
-Lines(ts) == LinesFrom(ts, 1, <<>>, <<>>)
-IsComment(l) == Len(l) >= 1 /\ l[1] = "C"
+LinesFrom(lx, i, cur, acc) ==
+  IF i > Len(lx) THEN (IF cur = <<>> THEN acc ELSE Append(acc, cur))
+  ELSE IF lx[i].k = "nl" THEN LinesFrom(lx, i + 1, <<>>, Append(acc, cur))
+  ELSE LinesFrom(lx, i + 1, Append(cur, lx[i]), acc)
+Lines(lx) == LinesFrom(lx, 1, <<>>, <<>>)
+IsComment(l) == Len(l) >= 1 /\ l[1].k = "com"
 (* comments are whole lines; an empty line is only admitted at the very end of the text *)
-LayoutOK(ls) == /\ \A i \in 1..Len(ls) : (\E j \in 1..Len(ls[i]) : ls[i][j] = "C") => ls[i] = <<"C">>
+LayoutOK(ls) == /\ \A i \in 1..Len(ls) : (\E j \in 1..Len(ls[i]) : ls[i][j].k = "com") => Len(ls[i]) = 1
                 /\ \A i \in 1..Len(ls) : ls[i] = <<>> => \A j \in i..Len(ls) : ls[j] = <<>>
 RECURSIVE Flatten(_, _)
 Flatten(ls, i) == IF i > Len(ls) THEN <<>> ELSE (IF IsComment(ls[i]) THEN <<>> ELSE ls[i]) \o Flatten(ls, i + 1)
@@ -80,50 +100,59 @@ SplitZero(nums, i, cur, acc) ==
   IF i > Len(nums) THEN [clauses |-> acc, open |-> cur]
   ELSE IF nums[i] = 0 THEN SplitZero(nums, i + 1, <<>>, Append(acc, cur))
   ELSE SplitZero(nums, i + 1, Append(cur, nums[i]), acc)
-Nums(toks) == [i \in 1..Len(toks) |-> NumTok[toks[i]]]
+Nums(toks) == [i \in 1..Len(toks) |-> toks[i].v]
 (* a comment line must not sit inside a clause: the numbers before it end a clause *)
 CommentsBetweenClauses(ls) ==
   \A i \in 1..Len(ls) : IsComment(ls[i]) =>
-     LET before == Flatten(SubSeq(ls, 1, i - 1), 1) IN before = <<>> \/ before[Len(before)] = "0"
-CnfRead(n, m, ts) ==
-  LET ls == Lines(ts)
+     LET before == Flatten(SubSeq(ls, 1, i - 1), 1) IN before = <<>> \/ (NumL(before[Len(before)]) /\ before[Len(before)].v = 0)
+CnfReadL(n, m, lx) ==
+  LET ls == Lines(lx)
       toks == Flatten(ls, 1)
-  IN IF ~LayoutOK(ls) \/ (\E i \in 1..Len(toks) : ~IsNum(toks[i])) \/ ~CommentsBetweenClauses(ls)
+  IN IF ~LayoutOK(ls) \/ (\E i \in 1..Len(toks) : ~NumL(toks[i])) \/ ~CommentsBetweenClauses(ls)
      THEN [wf |-> FALSE, clauses |-> <<>>]
      ELSE LET sp == SplitZero(Nums(toks), 1, <<>>, <<>>) IN
           [wf |-> /\ sp.open = <<>> /\ Len(sp.clauses) = m
                   /\ \A i \in 1..Len(sp.clauses) : \A j \in 1..Len(sp.clauses[i]) : Abs(sp.clauses[i][j]) <= n,
            clauses |-> sp.clauses]
+CnfRead(n, m, ts) == CnfReadL(n, m, LexSeq(ts))
 
 (* ---- WCNF ------------------------------------------------------------------ *)
-(* one clause per line: weight, literals, 0.  cons = constructor records with a weight field (0 = hard) *)
-WLineOK(l, n, withTop) ==
-  /\ Len(l) >= 2 /\ l[Len(l)] = "0"
-  /\ (l[1] = "T" /\ withTop) \/ (IsNum(l[1]) /\ NumTok[l[1]] > 0 /\ NumTok[l[1]] < TopWeight)
-  /\ \A j \in 2..(Len(l) - 1) : IsNum(l[j]) /\ NumTok[l[j]] # 0 /\ Abs(NumTok[l[j]]) <= n
-WLine(l) == [k |-> "clause", lits |-> [j \in 1..(Len(l) - 2) |-> NumTok[l[j + 1]]], w |-> <<>>, rhs |-> 1,
-             weight |-> IF l[1] = "T" THEN 0 ELSE NumTok[l[1]]]
-WcnfRead(n, m, withTop, ts) ==
-  LET ls == Lines(ts)
+(* one clause per line: weight, literals, 0.  top = 0: no top weight in the header, every clause is   *)
+(* soft; otherwise a clause whose weight is top is hard.  cons = constructor records with a weight     *)
+(* field (0 = hard)                                                                                    *)
+WLineOK(l, n, top) ==
+  /\ Len(l) >= 2 /\ NumL(l[Len(l)]) /\ l[Len(l)].v = 0
+  /\ NumL(l[1]) /\ l[1].v > 0 /\ (top = 0 \/ l[1].v <= top)
+  /\ \A j \in 2..(Len(l) - 1) : NumL(l[j]) /\ l[j].v # 0 /\ Abs(l[j].v) <= n
+WLine(l, top) == [k |-> "clause", lits |-> [j \in 1..(Len(l) - 2) |-> l[j + 1].v], w |-> <<>>, rhs |-> 1,
+                  weight |-> IF top # 0 /\ l[1].v = top THEN 0 ELSE l[1].v]
+WcnfReadL(n, m, top, lx) ==
+  LET ls == Lines(lx)
       cl == SelectSeq(ls, LAMBDA l : ~IsComment(l) /\ l # <<>>)
-  IN IF ~LayoutOK(ls) \/ Len(cl) # m \/ (\E i \in 1..Len(cl) : ~WLineOK(cl[i], n, withTop))
+  IN IF ~LayoutOK(ls) \/ Len(cl) # m \/ (\E i \in 1..Len(cl) : ~WLineOK(cl[i], n, top))
      THEN [wf |-> FALSE, cons |-> <<>>]
-     ELSE [wf |-> TRUE, cons |-> [i \in 1..Len(cl) |-> WLine(cl[i])]]
+     ELSE [wf |-> TRUE, cons |-> [i \in 1..Len(cl) |-> WLine(cl[i], top)]]
+(* the string form: the token "T" is the top weight; without a top weight in the header it may not occur *)
+WcnfRead(n, m, withTop, ts) ==
+  IF ~withTop /\ (\E i \in 1..Len(ts) : ts[i] = "T") THEN [wf |-> FALSE, cons |-> <<>>]
+  ELSE WcnfReadL(n, m, IF withTop THEN TopWeight ELSE 0, LexSeq(ts))
 
 (* ---- OPB ------------------------------------------------------------------- *)
 (* terms: coefficient variable coefficient variable ...  from position i up to (not including) position j *)
 TermsOK(l, i, j, n) == /\ j > i /\ (j - i) % 2 = 0
-                       /\ \A k \in i..(j - 1) : IF (k - i) % 2 = 0 THEN IsNum(l[k]) ELSE IsVar(l[k]) /\ Abs(VarTok[l[k]]) <= n
-TermLits(l, i, j) == [k \in 1..((j - i) \div 2) |-> VarTok[l[i + 2 * k - 1]]]
-TermWs(l, i, j)   == [k \in 1..((j - i) \div 2) |-> NumTok[l[i + 2 * k - 2]]]
-IsObjLine(l) == Len(l) >= 1 /\ l[1] = "min:"
-ObjLineOK(l, n) == Len(l) >= 4 /\ l[Len(l)] = ";" /\ TermsOK(l, 2, Len(l), n)
-ConLineOK(l, n) == /\ Len(l) >= 5 /\ l[Len(l)] = ";" /\ IsNum(l[Len(l) - 1]) /\ l[Len(l) - 2] \in {">=", "="}
+                       /\ \A k \in i..(j - 1) : IF (k - i) % 2 = 0 THEN NumL(l[k]) ELSE VarL(l[k]) /\ Abs(l[k].v) <= n
+TermLits(l, i, j) == [k \in 1..((j - i) \div 2) |-> l[i + 2 * k - 1].v]
+TermWs(l, i, j)   == [k \in 1..((j - i) \div 2) |-> l[i + 2 * k - 2].v]
+IsObjLine(l) == Len(l) >= 1 /\ SymL(l[1], "min:")
+ObjLineOK(l, n) == Len(l) >= 4 /\ SymL(l[Len(l)], ";") /\ TermsOK(l, 2, Len(l), n)
+ConLineOK(l, n) == /\ Len(l) >= 5 /\ SymL(l[Len(l)], ";") /\ NumL(l[Len(l) - 1])
+                   /\ (SymL(l[Len(l) - 2], ">=") \/ SymL(l[Len(l) - 2], "="))
                    /\ TermsOK(l, 1, Len(l) - 2, n)
-ConLine(l) == [k |-> IF l[Len(l) - 2] = "=" THEN "eq" ELSE "gteq", lits |-> TermLits(l, 1, Len(l) - 2),
-               w |-> TermWs(l, 1, Len(l) - 2), rhs |-> NumTok[l[Len(l) - 1]], weight |-> 0]
-OpbRead(n, ts) ==
-  LET ls == Lines(ts)
+ConLineL(l) == [k |-> IF SymL(l[Len(l) - 2], "=") THEN "eq" ELSE "gteq", lits |-> TermLits(l, 1, Len(l) - 2),
+                w |-> TermWs(l, 1, Len(l) - 2), rhs |-> l[Len(l) - 1].v, weight |-> 0]
+ConLine(l) == ConLineL(LexSeq(l))
+OpbReadL(n, lx) ==
+  LET ls == Lines(lx)
       st == SelectSeq(ls, LAMBDA l : ~IsComment(l) /\ l # <<>>)
       hasObj == Len(st) >= 1 /\ IsObjLine(st[1])
       cons == IF hasObj THEN Tail(st) ELSE st
@@ -132,5 +161,6 @@ OpbRead(n, ts) ==
      ELSE [wf |-> TRUE, hasObj |-> hasObj,
            obj |-> IF hasObj THEN [lits |-> TermLits(st[1], 2, Len(st[1])), w |-> TermWs(st[1], 2, Len(st[1]))]
                    ELSE [lits |-> <<>>, w |-> <<>>],
-           cons |-> [i \in 1..Len(cons) |-> ConLine(cons[i])]]
+           cons |-> [i \in 1..Len(cons) |-> ConLineL(cons[i])]]
+OpbRead(n, ts) == OpbReadL(n, LexSeq(ts))
 =============================================================================
